@@ -22,6 +22,11 @@ int64 brute force); 'tm' clusters also as int64, scaled by 2^-30 and riding on a
 few 1e-9 around zero and ~1e-3 apart on a common level of 1024 (tolerances relative to the sample size); short rotation pairs
 also with components held as int64 / int16 / uint8 / float32, scaled by 2^-30 / 2^20, and on AccSignal objects with a history;
 angles next to 0 and 90; every returned combination is overwritten in place and the components are verified afterwards.
+
+Round 4: falsy-zero and omitted values of same_start's optional numeric parameters start / end: 'ss' blocks SS_MENU_BLOCKS also
+with the windows of SS_MENUS - end = 0 and 0.0 (the section that consists of the first sample only: 0 is inside the domain, is
+not the default 1 and is falsy), start = 0 / 0.0 / omitted, one-sample windows away from the origin, and, at dt = 0.5 where the
+default section [0, 1] fits the records, every combination of given and omitted bounds, the whole record and its last sample.
 """
 import itertools
 import math
@@ -45,6 +50,10 @@ MEASURES = ('pga', 'pgv', 'arias_intensity', 'func-scalar', 'func-series', 'velo
 # named parameters whose value is a whole series: the scan must return that series for every angle (shape (points, len))
 SERIES_MEASURES = ('velocity', 'displacement', 's_a')
 S_A_POINTS = (3,)       # 's_a' (100 periods, two spectra per angle) only with the smaller number of scan points
+# compute_rotated(ns, we, angle_off_ns=0.0, parameter=None, func=None, points=100): a scan that omits angle_off_ns and points
+# (after the explicit scans) covers the 100 angles linspace(0, 180, 100) with no offset; measures of that scan:
+SCAN_DEFAULTS = (0.0, 100)
+SCAN_DEFAULT_MEASURES = ('pga', 'func-series')
 # component containers / scalings (pairs of length <= ROT_VARIANT_MAX_LEN; actual samples v*mult+offset, exact in the type;
 # 2^-30 ~ 1e-9 and 2^20 ~ 1e6: the combination is linear and every measure homogeneous, tolerances relative to the scale).
 # 'history': the two AccSignal objects held other records of a different length before (combined, scanned, lazy properties
@@ -94,6 +103,23 @@ OFFGRID_L = (4,)        # blocks (by word length) that also get the off-grid win
 # (section averages differ by ~1e-6 of their size); all values exact in binary.  Run on the blocks SS_VARIANT_BLOCKS.
 SS_VARIANTS = (('tiny (v*2^-30)', Fraction(1, 2 ** 30), 0), ('level (v*2^-10+2^10)', Fraction(1, 2 ** 10), 2 ** 10))
 SS_VARIANT_BLOCKS = ((2, 4, 'all', 1), (3, 4, 'R9', 2))
+# Window bounds that are zero (int 0 and float 0.0) or omitted ('omitted': the keyword is not passed; same_start's defaults are
+# start=0, end=1).  [start, 0] is the first sample only - "start both series at the same value".  At dt = 0.1 the default section
+# [0, 1] needs 11 samples, so the windows with an omitted end live in a second menu at dt = 0.5 (all bounds dyadic: index windows
+# exact, no rounding ties).  Index windows [s, e): samples with start <= t_i <= end.
+OM = 'omitted'
+SS_MENUS = {
+    'zero-bounds dt=0.1': (0.1, ((0, 0), (0.0, 0.0), (OM, 0), (OM, 0.0), (0.0, 0.1), (0.2, 0.2))),
+    'zero-and-omitted-bounds dt=0.5': (0.5, ((OM, OM), (0, OM), (0.0, OM), (OM, 1), (OM, 0), (OM, 0.0), (0, 0), (0.0, 0.0),
+                                             (0.0, 0.5), (0.5, 0.5), (0.5, OM), (0, 1.5), (1.5, 1.5))),
+}
+# keyed by the effective (start, end): 0 == 0.0 as a key
+SS_MENU_INDEX_WINDOWS = {
+    'zero-bounds dt=0.1': {(0, 0): ((0, 1),), (0, 0.1): ((0, 2),), (0.2, 0.2): ((2, 3),)},
+    'zero-and-omitted-bounds dt=0.5': {(0, 1): ((0, 3),), (0, 0): ((0, 1),), (0, 0.5): ((0, 2),), (0.5, 0.5): ((1, 2),),
+                                       (0.5, 1): ((1, 3),), (0, 1.5): ((0, 4),), (1.5, 1.5): ((3, 4),)},
+}
+SS_MENU_BLOCKS = ((2, 4, 'R27', 1), (3, 4, 'R9', 2), (4, 4, 'R3', 2))      # argument handling, not a data-pattern question: reduced families
 
 
 def lcg_perm(n, j):
@@ -116,6 +142,8 @@ def ss_family(name, L):
         return [list(w) + tail for w in itertools.product(SIG_SS, repeat=3)]
     if name == 'R9':       # first two samples free, third = 3, fixed tail
         return [list(w) + [3] + tail for w in itertools.product(SIG_SS, repeat=2)]
+    if name == 'R3':       # first sample free, (x, 1, 3, 1[, 0]): used by the zero / omitted window menus for four signals
+        return [[x, 1, 3] + tail for x in SIG_SS]
     raise ValueError(name)
 
 
@@ -155,10 +183,15 @@ def build(tier, seed):
         for m, L, fam, hl in SS_VARIANT_BLOCKS:
             for head in itertools.product(ss_family(fam, L), repeat=hl):
                 cases.append({'kind': 'ss', 'm': m, 'L': L, 'family': fam, 'head': [list(h) for h in head], 'variant': vname})
+    for menu in sorted(SS_MENUS):
+        for m, L, fam, hl in SS_MENU_BLOCKS:
+            for head in itertools.product(ss_family(fam, L), repeat=hl):
+                cases.append({'kind': 'ss', 'm': m, 'L': L, 'family': fam, 'head': [list(h) for h in head], 'menu': menu})
     return {
         'cases': cases,
         'rule': "kind 'rot': all pairs (ns, we) of words over {-1,0,2} of equal length 1..%d x angles %s (+180 partner) and "
-                "compute_rotated offsets %s x points %s x measures %s (s_a: points 3 only); kind 'tm': %d distinct permutation masters (fixed "
+                "compute_rotated offsets %s x points %s x measures %s (s_a: points 3 only), then with angle_off_ns and points omitted "
+                "(signature defaults 0.0 and 100; measures pga and func-series); kind 'tm': %d distinct permutation masters (fixed "
                 "LCG family, lengths %s) x steps %s x every lag in (-steps, steps) x clusters of 2..4 signals x every "
                 "master_index (non-masters carry lags l, -l, l+1 wrapped into the window; edge padded); kind 'ss': complete "
                 "products family^m of words over {0,1,3}: %s, x every master_index x windows %s at dt=0.1; blocks with L in %s "
@@ -168,17 +201,21 @@ def build(tier, seed):
                 "some non-master's section average differs from the master's.  Added menus: rotation pairs of length <= %d "
                 "also with the components as %s (scan offset/points %s, every measure); returned combinations are overwritten in "
                 "place and the components checked afterwards; time_match clusters also as %s, and long clusters lcg_perm(n, 0), "
-                "n in %s x steps %s x every lag x (signals, master) in %s; same_start blocks %s also with samples %s"
+                "n in %s x steps %s x every lag x (signals, master) in %s; same_start blocks %s also with samples %s; same_start "
+                "blocks %s also x the window menus %s ('omitted': keyword not passed, defaults start=0, end=1), judged by the "
+                "index-window reference and by the reported-average relation"
                 % (Lrot, list(ANGLES), list(OFFSETS), list(POINTS), list(MEASURES), masters, list(TM_LENGTHS), list(TM_STEPS),
                    ['m=%d L=%d family=%s' % (m, L, f) for m, L, f, _ in plan], [list(w) for w in WINDOWS], list(OFFGRID_L),
                    [list(w) for w in OFFGRID_WINDOWS], ROT_VARIANT_MAX_LEN, [v[0] for v in ROT_VARIANTS],
                    [list(x) for x in ROT_VARIANT_SCAN], [v[0] for v in TM_VARIANTS], list(TM_LONG_LENGTHS), list(TM_LONG_STEPS),
                    [list(x) for x in TM_LONG_SHAPES], ['m=%d L=%d family=%s' % (m, L, f) for m, L, f, _ in SS_VARIANT_BLOCKS],
-                   [v[0] for v in SS_VARIANTS]),
+                   [v[0] for v in SS_VARIANTS], ['m=%d L=%d family=%s' % (m, L, f) for m, L, f, _ in SS_MENU_BLOCKS],
+                   {k: [v[0], [list(w) for w in v[1]]] for k, v in sorted(SS_MENUS.items())}),
         'bounds': {'rotation': {'alphabet': SIG_ROT, 'max_len': Lrot, 'angles': ANGLES, 'offsets': OFFSETS, 'points': POINTS,
                                 'measures': MEASURES, 's_a_points': S_A_POINTS, 'dt': ROT_DT,
                                 'component_variants': [v[0] for v in ROT_VARIANTS], 'variant_max_len': ROT_VARIANT_MAX_LEN,
-                                'variant_scans': ROT_VARIANT_SCAN},
+                                'variant_scans': ROT_VARIANT_SCAN,
+                                'scan_with_omitted_offset_and_points': {'defaults': SCAN_DEFAULTS, 'measures': SCAN_DEFAULT_MEASURES}},
                    'time_match': {'lengths': TM_LENGTHS, 'masters_per_length': TM_FAMILY, 'steps': TM_STEPS,
                                   'cluster_sizes': [2, 3, 4], 'dt': TM_DT, 'value_variants': [v[0] for v in TM_VARIANTS],
                                   'long_lengths': TM_LONG_LENGTHS, 'long_steps': TM_LONG_STEPS,
@@ -187,12 +224,14 @@ def build(tier, seed):
                                   'offgrid_windows': OFFGRID_WINDOWS, 'offgrid_and_reported_average_relation_for_L': OFFGRID_L,
                                   'dt': SS_DT, 'value_variants': [v[0] for v in SS_VARIANTS],
                                   'variant_blocks': [[m, L, f] for m, L, f, _ in SS_VARIANT_BLOCKS],
-                                  'families': {'all': 'all words of length L', 'R27': '(x,y,z,1[,0])', 'R9': '(x,y,3,1[,0])'}}},
+                                  'zero_and_omitted_bound_menus': {k: {'dt': v[0], 'windows': v[1]} for k, v in SS_MENUS.items()},
+                                  'zero_and_omitted_bound_blocks': [[m, L, f] for m, L, f, _ in SS_MENU_BLOCKS],
+                                  'families': {'all': 'all words of length L', 'R27': '(x,y,z,1[,0])', 'R9': '(x,y,3,1[,0])', 'R3': '(x,1,3,1[,0])'}}},
         'required_classes': ['rot-theta-0', 'rot-theta-90', 'rot-negation', 'rot-general-angle',
                              'scan-pga', 'scan-pgv', 'scan-arias_intensity', 'scan-func-scalar', 'scan-func-series',
                              'scan-velocity', 'scan-displacement', 'scan-s_a', 'scan-series-valued-parameter',
                              'scan-offset-0', 'scan-offset-30', 'scan-offset-200', 'scan-points-3', 'scan-points-7',
-                             'scan-series-last-differs-from-first',
+                             'scan-series-last-differs-from-first', 'scan-defaults-after-explicit',
                              'tm-lag-positive', 'tm-lag-negative', 'tm-lag-zero', 'tm-nsig-2', 'tm-nsig-3', 'tm-nsig-4',
                              'tm-master-0', 'tm-master-nonzero', 'tm-max-lag',
                              'ss-nsig-2', 'ss-nsig-3', 'ss-nsig-4', 'ss-master-0', 'ss-master-1', 'ss-master-last',
@@ -202,7 +241,10 @@ def build(tier, seed):
                              'rot-near-special-angle', 'rot-variant-i64', 'rot-variant-i16', 'rot-variant-u8', 'rot-variant-f32',
                              'rot-variant-f64', 'rot-variant-history',
                              'tm-variant-i64', 'tm-variant-f64-transformed', 'tm-long-cluster', 'tm-length-odd', 'tm-length-even',
-                             'ss-variant-tiny', 'ss-variant-level', 'ss-variant-shift-nonzero'],
+                             'ss-variant-tiny', 'ss-variant-level', 'ss-variant-shift-nonzero',
+                             'ss-end-zero-int', 'ss-end-zero-float', 'ss-start-zero-float', 'ss-start-omitted', 'ss-end-omitted',
+                             'ss-both-omitted', 'ss-single-sample-window', 'ss-first-sample-only', 'ss-window-ends-on-last-sample',
+                             'ss-zero-end-shift-differs-from-default-end-shift', 'ss-menu-shift-nonzero'],
         'assumptions': ['rotation reference: ns*cos(theta)+we*sin(theta) with math.cos/math.sin per sample; measures from '
                         'their definitions (max abs; trapezoid velocity; pi/(2*9.81)*trapezoid(a^2); user callables)',
                         'lag matching is examined only for slaves that are exact edge-padded integer shifts of a master with '
@@ -216,6 +258,8 @@ def build(tier, seed):
                         'the chosen section average of a signal is what Signal.get_section_average(start=, end=) reports for '
                         'the same bounds (relation between public calls); the floor/ceil index windows only feed the '
                         'non-triviality count',
+                        'same_start called without start / end uses start=0, end=1 (the defaults in its code; it has no parameter '
+                        'documentation): examined at dt = 0.5, where that section (samples 0..2) fits the records',
                         'variants: samples v*mult+offset exactly representable in the stated type; references for the values '
                         'actually passed, tolerances relative to their size; unsigned / narrow integer CLUSTERS are not examined '
                         '(time_match forms differences and squares in the samples\' own type)',
@@ -404,19 +448,27 @@ def _rot_body(r, ns, we, tag, mult, off, typ):
             r.expect_close('rotation.negation', sub, getattr(out2, 'values', None), neg, rtol=0.0, atol=at,
                            what='combination at theta+180 vs minus combination at theta')
     scans = [(o, p) for o in OFFSETS for p in POINTS] if plain else list(ROT_VARIANT_SCAN)
+    if plain:
+        scans.append((None, None))      # explicit options first, then a scan that relies on the defaults of the signature
     for off_ns, pts in scans:
+        defaults = off_ns is None
+        if defaults:
+            off_ns, pts = SCAN_DEFAULTS
         want_ang = [180.0 * i / (pts - 1) for i in range(pts)]
         combos = [ref_combo(nsx, wex, a - off_ns) for a in want_ang]
-        for meas in MEASURES:
+        for meas in (SCAN_DEFAULT_MEASURES if defaults else MEASURES):
             if meas == 's_a' and pts not in S_A_POINTS:
                 continue
             sub = dict(base, offset=off_ns, points=pts, measure=meas)
             r.states += 1
-            if plain:
+            if defaults:
+                sub = dict(base, offset='omitted', points='omitted', measure=meas)
+                r.cls('scan-defaults-after-explicit')
+            elif plain:
                 r.cls('scan-' + meas)
                 r.cls('scan-offset-%d' % off_ns)
                 r.cls('scan-points-%d' % pts)
-            kw = {'angle_off_ns': off_ns, 'points': pts}
+            kw = {} if defaults else {'angle_off_ns': off_ns, 'points': pts}
             if meas == 'func-scalar':
                 kw['func'] = _f_scalar
             elif meas == 'func-series':
@@ -644,13 +696,49 @@ def run_ss(c):
 
     def cc(name):
         ccount[name] = ccount.get(name, 0) + 1
-    relation = L in OFFGRID_L
-    windows = [(w, True) for w in WINDOWS] + ([(w, False) for w in OFFGRID_WINDOWS] if relation else [])
+    menu = c.get('menu')
+    if menu:
+        dt, wins = SS_MENUS[menu]
+        relation = True
+        windows = [(w, True) for w in wins]
+    else:
+        dt = SS_DT
+        relation = L in OFFGRID_L
+        windows = [(w, True) for w in WINDOWS] + ([(w, False) for w in OFFGRID_WINDOWS] if relation else [])
     for tail in itertools.product(fam, repeat=m - len(head)):
         ws = head + list(tail)
         for mi in range(m):
             for (start, end), ongrid in windows:
-                iw = SS_INDEX_WINDOWS[(start, end)] if ongrid else SS_OFFGRID_INDEX_WINDOWS[(start, end)]
+                es, ee = (0 if start == OM else start), (1 if end == OM else end)       # the section that was chosen
+                kw = {}
+                if start != OM:
+                    kw['start'] = start
+                if end != OM:
+                    kw['end'] = end
+                if menu:
+                    iw = SS_MENU_INDEX_WINDOWS[menu][(es, ee)]
+                    if end != OM and end == 0:
+                        cc('ss-end-zero-float' if isinstance(end, float) else 'ss-end-zero-int')
+                        cc('ss-first-sample-only')
+                        if dt == 0.5:
+                            # does it matter that end=0 is not the default end=1?  (shifts of the two sections differ)
+                            if any(_mean(ws[j][0:1]) - _mean(ws[mi][0:1]) != _mean(ws[j][0:3]) - _mean(ws[mi][0:3])
+                                   for j in range(m) if j != mi):
+                                cc('ss-zero-end-shift-differs-from-default-end-shift')
+                    if isinstance(start, float) and start == 0:
+                        cc('ss-start-zero-float')
+                    if start == OM:
+                        cc('ss-start-omitted')
+                    if end == OM:
+                        cc('ss-end-omitted')
+                    if start == OM and end == OM:
+                        cc('ss-both-omitted')
+                    if iw[0][1] - iw[0][0] == 1:
+                        cc('ss-single-sample-window')
+                    if iw[0][1] == L:
+                        cc('ss-window-ends-on-last-sample')
+                else:
+                    iw = SS_INDEX_WINDOWS[(start, end)] if ongrid else SS_OFFGRID_INDEX_WINDOWS[(start, end)]
                 n_states += 1
                 moved = False
                 for s0, e0 in (iw[:1] if ongrid else iw):
@@ -659,6 +747,8 @@ def run_ss(c):
                 if moved:
                     n_nontriv += 1
                     cc('ss-shift-nonzero')
+                    if menu:
+                        cc('ss-menu-shift-nonzero')
                 else:
                     cc('ss-already-aligned')
                 cc('ss-nsig-%d' % m)
@@ -677,6 +767,8 @@ def run_ss(c):
                     else:
                         cc('ss-window-bound-fraction-lt-half')
                 sub = {'words': ws, 'master_index': mi, 'start': start, 'end': end}
+                if dt != SS_DT:
+                    sub['dt'] = dt
                 if vname:
                     sub['values'] = vname
                     cc('ss-variant-' + vname.split(' ')[0])
@@ -684,8 +776,8 @@ def run_ss(c):
                         cc('ss-variant-shift-nonzero')
                 r.evals += 1
                 try:
-                    cl = eqsig.Cluster([arrs[tuple(w)].copy() for w in ws], SS_DT, master_index=mi)
-                    cl.same_start(start=start, end=end)
+                    cl = eqsig.Cluster([arrs[tuple(w)].copy() for w in ws], dt, master_index=mi)
+                    cl.same_start(**kw)
                     new = []
                     for j in range(m):
                         v = cl.values_by_index(j)
@@ -698,7 +790,7 @@ def run_ss(c):
                     # the chosen section average as the library itself reports it for the same bounds
                     cc('ss-reported-average-relation')
                     try:
-                        rep_avg = [float(cl.signal_by_index(j).get_section_average(start=start, end=end)) for j in range(m)]
+                        rep_avg = [float(cl.signal_by_index(j).get_section_average(start=es, end=ee)) for j in range(m)]
                     except Exception as e:  # noqa
                         n_cmp += 1
                         r.fail('same_start.section-average-reported', sub,
@@ -783,7 +875,8 @@ def snippet(case, v):
             "else:\n"
             "    m = sub['measure']; kw = {'parameter': m} if not m.startswith('func') else \\\n"
             "        {'func': (lambda s: float(np.sum(np.abs(s.values)))) if m == 'func-scalar' else (lambda s: np.cumsum(s.values))}\n"
-            "    print(eqsig.compute_rotated(ns, we, angle_off_ns=sub['offset'], points=sub['points'], **kw))\n")
+            "    if sub['offset'] != 'omitted': kw.update(angle_off_ns=sub['offset'], points=sub['points'])\n"
+            "    print(eqsig.compute_rotated(ns, we, **kw))\n")
     if case.get('kind') in ('tm', 'tm-long'):
         return head + (
             "m = sub['master']   # a name 'lcg_perm(n, j)': see lcg_perm in mcheck/props/c18.py; sub.get('values'): TM_VARIANTS\n"
@@ -798,7 +891,9 @@ def snippet(case, v):
             "for i in range(sub['nsig']): print(i, type(c.values_by_index(i)).__name__, [float(x) for x in c.values_by_index(i)])\n")
     return head + (
         "mult, off = {'tiny': (2.0 ** -30, 0.0), 'level': (2.0 ** -10, 2.0 ** 10)}.get(str(sub.get('values')).split(' ')[0], (1.0, 0.0))\n"
-        "c = eqsig.Cluster([np.array(w, float) * mult + off for w in sub['words']], 0.1, master_index=sub['master_index'])\n"
-        "c.same_start(start=sub['start'], end=sub['end'])\n"
+        "c = eqsig.Cluster([np.array(w, float) * mult + off for w in sub['words']], sub.get('dt', 0.1), master_index=sub['master_index'])\n"
+        "kw = {k: sub[k] for k in ('start', 'end') if sub[k] != 'omitted'}      # 'omitted': keyword not passed (defaults 0 and 1)\n"
+        "c.same_start(**kw)\n"
+        "eff = {'start': kw.get('start', 0), 'end': kw.get('end', 1)}\n"
         "for i in range(len(sub['words'])):\n"
-        "    print(i, c.values_by_index(i), c.signal_by_index(i).get_section_average(start=sub['start'], end=sub['end']))\n")
+        "    print(i, c.values_by_index(i), c.signal_by_index(i).get_section_average(**eff))\n")
